@@ -52,7 +52,7 @@ def compose_models(models_map: Dict[str, ModelMeta]) -> ModelsStructureType:
                 path_injections[struct["model"]] = parent["model"]
             else:
                 # Model is using by only one model
-                parent = structure_hash_table[next(iter(parents))]
+                parent = structure_hash_table[min(parents)]
                 struct = structure_hash_table[key]
                 parent["nested"].append(struct)
 
@@ -104,7 +104,7 @@ def compose_models_flat(models_map: Dict[Index, ModelMeta]) -> ModelsStructureTy
                 positions.update_position(parents_joined, pos + 1)
             else:
                 # Model is using by only one model
-                parent = next(iter(parents))
+                parent = min(parents)
                 pos = positions.get(parent, len(root_models))
                 positions.update_position(parent, pos + 1)
             positions.update_position(key, pos + 1)
